@@ -618,6 +618,11 @@ class ExecMixin:
             else: break
         h = b['index']
         back = prev in lp['body']
+        if spec is None and self.opts.get('unroll') is None:
+            # a loop the contract says nothing about (e.g. added by a later edit): cut it with the invariant `true` - everything the loop may
+            # write is havoced (sound over-approximation); what the code after the loop needs from it then simply cannot be proved
+            spec = {'invariant': [], 'modifies': None, 'decreases': None, 'unroll': None}
+            self.assumptions.add('loop %d of %s has no invariant in its contract: cut with `true` (all state the loop may modify is havoced)' % (lp['ordinal'], fn.short))
         if spec is None or (not spec['invariant'] and spec.get('unroll') is not None) or (spec and spec.get('unroll') is not None):
             # bounded unrolling (tier B) with an unwinding assertion
             n = (spec or {}).get('unroll')
